@@ -65,6 +65,9 @@ func (rs *raceState) isHarnessCode(fr *frame) bool {
 	}
 	file := fr.p.eng.prog.Fset.Position(top.Pos()).Filename
 	h := strings.HasPrefix(filepath.Base(file), "zz_verif_") || strings.Contains(file, "/zzverif/")
+	if strings.Contains(file, "/zzverif/selftest/") {
+		h = false // the selftest programs play the part of repository code
+	}
 	rs.harness[fn] = h
 	return h
 }
